@@ -217,6 +217,11 @@ COMMENT = {"none": None, "other": "/* unrelated comment */", "fltr": "/* bgpfu-f
            "prefix-only-similar": "/* xbgpfu-fltr: {e} */",
            "fltr-doublestar": "/** bgpfu-fltr: {e} **/", "fltr-slashes": "// bgpfu-fltr: {e}", "fltr-unterminated": "/* bgpfu-fltr: {e}"}
 
+INACTIVE_TERM = ('<term xmlns:jcmd="http://yang.juniper.net/junos/jcmd" jcmd:active="false"><name>old</name><from><protocol>bgp</protocol></from>'
+                 '<then><accept/></then></term>')
+RAW_BODY = {"reject+inactive-term": "raw:<then><reject/></then>" + INACTIVE_TERM,
+            "inactive-term+reject": "raw:" + INACTIVE_TERM + "<then><reject/></then>"}
+
 def shape_scenarios(cases, prop):
     out = []
     for k, c in enumerate(cases):
@@ -224,8 +229,9 @@ def shape_scenarios(cases, prop):
         e = irr.asset_with(["a"], ["c"]); ctl = irr.asset_with(["d"], [])
         com = COMMENT[sh["comment"]]
         com = com.format(e=e) if com else None
-        name = "shape<&>\"'" if k % 7 == 3 else f"shape-{k}"       # escaped characters in names now and then
-        st = stmt(name, com, None if sh["active"] == "absent" else sh["active"], sh["body"], sh["order"], sh["dupxmlns"], sh["extra"])
+        # escaped characters in names now and then, and names that begin or end with a blank (quoted names may)
+        name = {3: "shape<&>\"'", 5: f" lead-{k}", 6: f"trail-{k} "}.get(k % 7, f"shape-{k}")
+        st = stmt(name, com, None if sh["active"] == "absent" else sh["active"], RAW_BODY.get(sh["body"], sh["body"]), sh["order"], sh["dupxmlns"], sh["extra"])
         why = " ".join(f"{a}={sh[a]}" for a in ("active", "comment", "body"))
         pol = {name: exp(c["sel"], c["marked"], "ok" if c["sel"] else "none", ["a"] if c["sel"] else [], ["c"] if c["sel"] else [],
                          e if c["sel"] else "", why),
@@ -388,6 +394,57 @@ def big_scenarios(prop):
             runs.append({"running": running, "irr": irr.db, "faults": [], "repeat": k == len(steps),
                          "expect": {"prop": prop, "c16": False, "policies": policies}})
         out.append({"case": f"{prop}-big{n}", "instance": "bgpfu", "eph0": [], "runs": runs, "meta": {"family": "big", "ranges_per_family": n}})
+    return out
+
+def c19_binary_scenarios(prop):
+    """C19 with the unmodified binary in daemon mode (command line, start-up and the loop as shipped): the FIRST run
+    fails - router unreachable, error reply to <open-configuration>, IRR data unobtainable for the only policy is not a
+    failure - the daemon must stay up, run again when it gets SIGHUP, converge, and leave with status 0 on SIGTERM."""
+    out = []
+    for k, first in enumerate(["unreachable", "open-error", "commit-error", "fine"]):
+        irr = Irr(); running = []; policies = {}
+        expr = irr.asset_with(["a"], ["c"])
+        running.append(stmt("p", f"/* bgpfu-fltr: {expr} */"))
+        policies["p"] = exp(True, True, "ok", ["a"], ["c"], expr, f"first run: {first}")
+        def run(router=None, faults=(), repeat=False):
+            r = {"running": running, "irr": irr.db, "faults": list(faults), "repeat": repeat,
+                 "expect": {"prop": prop, "c16": False, "policies": policies}}
+            if router:
+                r["router"] = router
+            return r
+        r1 = {"unreachable": run(router="unreachable"), "open-error": run(faults=[{"target": "open", "index": 0, "kind": "rpc-error"}]),
+              "commit-error": run(faults=[{"target": "commit", "index": 0, "kind": "rpc-error"}]), "fine": run()}[first]
+        out.append({"case": f"{prop}-bin{k}", "instance": "bgpfu", "eph0": [],
+                    "daemon": {"period": 1, "sessions": 3, "reset_before": []},
+                    "runs": [r1, run(), run(repeat=True)], "meta": {"family": "daemon-binary", "first_run": first}})
+    return out
+
+def transient_scenarios(prop):
+    """C17 at the level of the agent: several policies carry the SAME filter expression, and the IRR answers one
+    query of that expression with an error the first time it sees it (transient trouble).  Whichever policy is
+    evaluated first may fail - the evaluations after it must not inherit that: at most as many policies may be
+    left out as errors were injected, and every one that is installed must be right."""
+    out = []
+    for k, (kind, where, ndup) in enumerate([("F", "set", 3), ("E", "set", 2), ("F", "route4", 3), ("D", "route6", 4), ("F", "set", 5)]):
+        irr = Irr(); running = []; policies = {}
+        expr = irr.asset_with(["a", "b"], ["c"])
+        asn = f"AS{64512 + irr.n}"
+        q = {"set": f"!i{expr},1", "route4": f"!g{asn}", "route6": f"!6{asn}"}[where]
+        irr.db["errors_once"] = {q: kind}
+        for i in range(ndup):
+            name = f"dup-{i}"
+            running.append(stmt(name, f"/* bgpfu-fltr: {expr} */"))
+            policies[name] = exp(True, True, "either", ["a", "b"], ["c"], expr, f"same expression, transient {kind} on {where}")
+            # an error on a route query is sunk: that policy may come out without that family's prefixes
+            if where != "set":
+                policies[name]["partial_ok"] = True
+        cexpr = irr.asset_with(["d"], [])
+        running.append(stmt("control", f"/* bgpfu-fltr: {cexpr} */"))
+        policies["control"] = exp(True, True, "ok", ["d"], [], cexpr, "control")
+        out.append({"case": f"{prop}-tr{k}", "instance": "bgpfu", "eph0": [],
+                    "runs": [{"running": running, "irr": irr.db, "faults": [], "repeat": False,
+                              "expect": {"prop": prop, "c16": False, "policies": policies, "max_transient_failures": 1}}],
+                    "meta": {"family": "transient", "kind": kind, "where": where, "duplicates": ndup}})
     return out
 
 def daemon_twins(scenarios, every):
